@@ -229,6 +229,29 @@ Example C13_example_duplicate_ids :
   end.
 Proof. vm_compute. repeat split. Qed.
 
+(** F18 - F20 and the source order at the level of the tool: a point table -- a row-for-row copy -- whose columns are named by
+    an SQL keyword, with a space and with a double quote, whose key is no rowid alias and NOT in the order of the rows (40, 10,
+    30), with a BLOB column (the second row holds the TEXT with the same content id, the third a blob again) and a BOOLEAN
+    column (the Go bools the reader passes on are the integers 1 / 0 the driver binds them as): every target file holds
+    the rows in the SOURCE's order, blob as blob, text as text, 1 / 0 / NULL *)
+Definition ex_kinds : table :=
+  MkTable "poi q" [MkCol "order" "INT" true 1; MkCol "select" "POINT" false 0; MkCol "street name" "BLOB" false 0;
+                   MkCol "a""b" "BOOLEAN" false 0] "select" 1 ex_srs.
+Definition ex_kinds_src : list (table * list rfeat) := [
+  (ex_kinds, [MkRFeat [VInt 40; VBlob 6; VInt 1] (Some [(5, MkGeom 1 [(1, 1)] 9); (6, MkGeom 1 [(1, 1)] 9)]);
+              MkRFeat [VInt 10; VText 6; VInt 0] (Some [(5, MkGeom 1 [(2, 2)] 10); (6, MkGeom 1 [(2, 2)] 10)]);
+              MkRFeat [VInt 30; VBlob 0; VNull] (Some [(5, MkGeom 1 [(3, 3)] 11); (6, MkGeom 1 [(3, 3)] 11)])])].
+
+Example C13_regression_F18_F19_F20 :
+  let r := ref_cli_run ex_cfg (MkArgs true (Some ex_kinds_src) (s_ "out/nl.gpkg") [5; 6] (MkFlags false 2 true false false)) [] in
+  rows_at r "out/nl_5.gpkg" "poi q" =
+    Some [[CVal (VInt 40); CGeom (MkGeom 1 [(1, 1)] 9); CVal (VBlob 6); CVal (VInt 1)];
+          [CVal (VInt 10); CGeom (MkGeom 1 [(2, 2)] 10); CVal (VText 6); CVal (VInt 0)];
+          [CVal (VInt 30); CGeom (MkGeom 1 [(3, 3)] 11); CVal (VBlob 0); CVal VNull]] /\
+  rows_at r "out/nl_6.gpkg" "poi q" = rows_at r "out/nl_5.gpkg" "poi q" /\
+  value_eqb (VBlob 6) (VText 6) = false.
+Proof. vm_compute. repeat split. Qed.
+
 (** overwrite: a second run over the files of a first run (other page size, other content) leaves the
     same files as a run on an empty directory; without overwrite it fails (tables exist) *)
 Example C13_example_overwrite :
